@@ -30,6 +30,8 @@ func runC12(r *engine.Run) {
 	r.Rule("DOM-nodb", "resolve reaches the storage lookup only where t.db != nil tested (or resolveHashNode has a nil-error return under db == nil): a storage-less partial trie keeps an unresolved reference in the branch reduction of delete instead of failing where the full trie succeeds")
 	r.Rule("DOM-childhash", "in deserializeTrie the subtree returned by each recursive call is stored into its parent, and only where bytes.Equal(parent's placeholder hash, child hash) tested true; Deserialize marks the decoded root dirty, recomputes its hash and returns success only where the transmitted root hash equals the recomputed one")
 	r.Rule("AGREE-persist", "see C10: serialised fields = deserialised fields")
+	r.Rule("LOCK-mark", "each worker of GetPath's parallel collection holds a mutex from before its markToCollect call until after the write-back of the marked child (Lock dominates the call, no Unlock in between)")
+	r.Rule("AGREE-ref", "every hashNode built in the package has both its hash and its weight set: a reference stands for a subtree's identity and weight")
 	r.NotDec = append(r.NotDec, "root/weight equality after mirrored updates (value-level)", "the import-side hash checks (not necessary for honest exports)")
 	agreeBranches(r)
 	agreeEmbed(r)
@@ -41,6 +43,8 @@ func runC12(r *engine.Run) {
 	domMarked(r, "DOM-marked")
 	domNoDB(r, "DOM-nodb")
 	domChildHash(r, "DOM-childhash")
+	lockMark(r, "LOCK-mark")
+	refComplete(r, "AGREE-ref")
 	agreePersist(r, "AGREE-persist")
 }
 
@@ -328,6 +332,8 @@ func runC13(r *engine.Run) {
 	r.Rule("AGREE-checkpoint", "the fields of the checkpoint written by SaveRoot (hash, weight of the current root) are exactly those Rollback restores the root from, and SaveRoot resets `created`")
 	r.Rule("DOM-created", "see C11: every node a commit writes is recorded as created (also at the collapse level), so that a rollback removes it from storage")
 	r.Rule("DEP-checkpoint", "in Rollback every condition that decides which root is installed, and every field of the restored root reference, is computed from the checkpoint (loads below t.oldRoot and constants) only - never from the state being rolled back (t.root, Weight())")
+	r.Rule("DOM-sameroot", "every storage delete in RollbackTrie is reached only where bytes.Equal(requested root hash, current root hash) did not test true: asked for the root it already has, RollbackTrie purges nothing")
+	r.Rule("DOM-cleanfail", "see C11: a failed delete leaves its search path clean (otherwise the next commit records unchanged checkpoint nodes as created and a rollback deletes them)")
 	r.Rule("AGREE-created", "in each arm of commit a node's hash is recorded as created under the same 'hash changed' condition under which its previous hash is recorded as deleted: a node whose hash did not change existed at the checkpoint and must not be removed by a rollback")
 	r.NotDec = append(r.NotDec, "resolvability of every checkpoint node after rollback for every history (value-level)")
 	agreeRollback(r)
@@ -335,6 +341,8 @@ func runC13(r *engine.Run) {
 	agreeCreated(r)
 	domCreated(r, "DOM-created")
 	depCheckpoint(r, "DEP-checkpoint")
+	domSameRoot(r, "DOM-sameroot")
+	domCleanFail(r, "DOM-cleanfail")
 }
 
 func bookkeepingResets(f *ssa.Function) (map[string]bool, bool, bool) {
@@ -882,5 +890,149 @@ func depCheckpoint(r *engine.Run, rule string) {
 	})
 	if n < 2 {
 		r.Anchor(rule, fmt.Errorf("unresolved anchor: %d stores to root in Rollback", n))
+	}
+}
+
+// lockMark: in the parallel collection of GetPath each worker marks its key's
+// path below a root child while holding that child's mutex: the Lock dominates
+// the markToCollect call, and the matching Unlock is deferred or comes after the
+// child is written back. Two workers under one root child otherwise each resolve
+// their own copy of the collapsed child and the later write-back drops the
+// other's marks.
+func lockMark(r *engine.Run, rule string) {
+	f := wfn(r, rule, "GetPath")
+	if f == nil {
+		return
+	}
+	n := 0
+	var scan func(g *ssa.Function)
+	scan = func(g *ssa.Function) {
+		if g.Parent() != nil { // closures only: the workers
+			o := ord{}
+			engine.Instrs(g, func(in ssa.Instruction) {
+				c, ok := in.(*ssa.Call)
+				if !ok || c.Call.StaticCallee() == nil || c.Call.StaticCallee().Name() != "markToCollect" {
+					return
+				}
+				n++
+				locked := false
+				engine.Instrs(g, func(i2 ssa.Instruction) {
+					lc, ok := i2.(*ssa.Call)
+					if !ok {
+						return
+					}
+					if _, op, isLock := engine.LockOp(lc); isLock && op == "Lock" && engine.InstrDominates(lc, c) {
+						// not released before the call
+						released := false
+						engine.Instrs(g, func(i3 ssa.Instruction) {
+							uc, ok := i3.(*ssa.Call)
+							if !ok {
+								return
+							}
+							if _, op3, isL := engine.LockOp(uc); isL && op3 == "Unlock" && engine.ReachableAfter(lc, uc) && engine.ReachableAfter(uc, c) {
+								released = true
+							}
+						})
+						if !released {
+							locked = true
+						}
+					}
+				})
+				r.Check(locked, rule, o.next(fn(g)+"|mark under the branch lock"), r.P.Pos(c.Pos()), "the worker holds a mutex from before markToCollect until after the write-back",
+					"a worker of the parallel path collection marks (and resolves) a root child without holding that child's lock: two keys under one root child each work on their own copy and the later write-back loses the other key's path")
+			})
+		}
+		for _, a := range g.AnonFuncs {
+			scan(a)
+		}
+	}
+	scan(f)
+	if n < 1 {
+		r.Anchor(rule, fmt.Errorf("unresolved anchor: markToCollect call in a worker of GetPath"))
+	}
+}
+
+// refComplete: a reference node names its target's hash and carries its weight:
+// every hashNode built in the package has both fields set. A weightless
+// reference is invisible to the import check (weights are summed from the
+// parents' entries) and shows only when a later split reads it.
+func refComplete(r *engine.Run, rule string) {
+	n := 0
+	for _, f := range funcsOfPkg(r, pkgWMPT) {
+		if isGenFile(r, f.Pos()) {
+			continue
+		}
+		o := ord{}
+		engine.Instrs(f, func(in ssa.Instruction) {
+			al, ok := in.(*ssa.Alloc)
+			if !ok {
+				return
+			}
+			nm := namedOf(al.Type())
+			if nm == nil || nm.Obj().Name() != "hashNode" {
+				return
+			}
+			set := map[string]bool{}
+			for _, ref := range engine.Referrers(al) {
+				if fa, ok := ref.(*ssa.FieldAddr); ok {
+					for _, r2 := range engine.Referrers(fa) {
+						if st, ok := r2.(*ssa.Store); ok && st.Addr == ssa.Value(fa) {
+							set[engine.FieldOf(fa).Name()] = true
+						}
+					}
+				}
+			}
+			if len(set) == 0 {
+				return // a zero value used as a decode target elsewhere
+			}
+			n++
+			r.Check(set["hash"] && set["weight"], rule, o.next(fn(f)+"|hashNode"), r.P.Pos(al.Pos()), "the reference carries hash and weight",
+				fmt.Sprintf("a reference node is built without its %s: the subtree it stands for has no weight (or no identity) wherever the reference itself is read - a split above it computes a wrong branch weight and the roots diverge", map[bool]string{true: "weight", false: "hash"}[set["hash"]]))
+		})
+	}
+	if n < 4 {
+		r.Anchor(rule, fmt.Errorf("unresolved anchor: %d hashNode constructions found", n))
+	}
+}
+
+// domSameRoot: RollbackTrie purges the nodes recorded as created only when it
+// really moves to another root: every storage delete in RollbackTrie is reached
+// only where the requested root tested different from the current root (or the
+// requested root is empty).
+func domSameRoot(r *engine.Run, rule string) {
+	f := wfn(r, rule, "RollbackTrie")
+	if f == nil {
+		return
+	}
+	var eq *ssa.Call
+	engine.Instrs(f, func(in ssa.Instruction) {
+		if c, ok := in.(*ssa.Call); ok && isBytesEq(c) {
+			eq = c
+		}
+	})
+	n := 0
+	o := ord{}
+	engine.Instrs(f, func(in ssa.Instruction) {
+		c, ok := in.(*ssa.Call)
+		if !ok || !c.Call.IsInvoke() || c.Call.Method.Name() != "Delete" {
+			return
+		}
+		n++
+		good := false
+		if eq != nil {
+			// no feasible path reaches the delete with the roots tested equal
+			paths, okp := engine.PathFacts(f, c.Block(), 4096)
+			good = okp
+			for _, p := range paths {
+				if v, had := pathTruth(p, eq); had && v {
+					good = false
+				}
+			}
+		}
+		r.Check(good, rule, o.next(fn(f)+"|purge created"), r.P.Pos(c.Pos()), "storage deletes are reached only where the requested root differs from the current one",
+			"RollbackTrie deletes the nodes recorded as created also when it is asked for the root it already has: a committed batch without net effect re-saved checkpoint nodes under their own hashes, and the purge removes them")
+	})
+	if n < 1 || eq == nil {
+		r.Anchor(rule, fmt.Errorf("unresolved anchor: storage deletes (%d) / same-root comparison in RollbackTrie", n))
 	}
 }
